@@ -88,114 +88,183 @@ Section Sound.
     cbn in H |- *. apply andb_true_iff in H as [H1 H2]. rewrite H1. cbn. fold (block l). auto.
   Qed.
 
-  (* ---- the formatting step ---- *)
-  Lemma flat_nil_run a : flat a = [] -> forall st k, exists k', run a st k = Normal st k'.
+  Lemma getv_setv' x v st : getv x (setv x v st) = v.
+  Proof. unfold getv, setv. cbn [vars]. rewrite alookup_aset_same. reflexivity. Qed.
+
+  (* ---- the formatting phase ---- *)
+  Definition sval (k : oval) (raw : str) : option str :=
+    match k with
+    | ORaw => Some raw
+    | OFmt => fmt raw
+    | OSel => if noformat then Some raw else fmt raw
+    end.
+
+  (* what a binding says of a state *)
+  Definition holds (c : binding) (st : state) : Prop :=
+    match c with
+    | None => True
+    | Some (x, src, k) => sval k (getb src st) = Some (getv x st)
+    end.
+
+  Lemma oval_eqb_eq a b : oval_eqb a b = true -> a = b.
+  Proof. destruct a, b; cbn; congruence. Qed.
+
+  Lemma binding_eqb_eq a b : binding_eqb a b = true -> a = b.
   Proof.
-    induction a as [|a IHa b IHb|e|e h| |a IHa b IHb|c a IHa|c a IHa]; intros Hf st k;
-      try (cbn in Hf; discriminate).
-    - eexists. reflexivity.
-    - cbn [flat] in Hf. apply app_eq_nil in Hf as [Ha Hb].
-      destruct (IHa Ha st k) as [k1 E1]. destruct (IHb Hb st k1) as [k2 E2].
-      exists k2. cbn [IOShape.run]. rewrite E1. exact E2.
-    - destruct e; cbn in Hf; try discriminate. eexists. reflexivity.
+    destruct a as [[[x s] k]|], b as [[[x' s'] k']|]; cbn; try congruence.
+    intros H. apply andb_true_iff in H as [H Hk]. apply andb_true_iff in H as [Hx Hs].
+    apply str_eqb_eq in Hx. apply str_eqb_eq in Hs. apply oval_eqb_eq in Hk. subst. reflexivity.
   Qed.
 
-  Lemma app_eq_single {A} (l1 l2 : list A) x :
-    l1 ++ l2 = [x] -> (l1 = [x] /\ l2 = []) \/ (l1 = [] /\ l2 = [x]).
+  (* what [join_arms] gives: either both arms agree, or raw / formatted on the same variable and buffer *)
+  Lemma join_cases ra rb r :
+    join_arms ra rb = Some r ->
+    (ra = r /\ rb = r) \/
+    (exists x s, ra = Some (x, s, ORaw) /\ rb = Some (x, s, OFmt) /\ r = Some (x, s, OSel)).
   Proof.
-    destruct l1 as [|y l1]; cbn; intros H; [right; auto|].
-    injection H as -> H. apply app_eq_nil in H as [-> ->]. left; auto.
+    unfold join_arms. intros H.
+    destruct ra as [[[x s] [| |]]|]; try (destruct (binding_eqb _ rb) eqn:E; [|discriminate];
+      apply binding_eqb_eq in E; injection H as <-; left; split; congruence).
+    destruct rb as [[[x' s'] [| |]]|]; try (destruct (binding_eqb _ _) eqn:E; [|discriminate];
+      apply binding_eqb_eq in E; injection H as <-; left; split; congruence).
+    destruct (str_eqb x x' && str_eqb s s') eqn:E; [|discriminate].
+    apply andb_true_iff in E as [Hx Hs]. apply str_eqb_eq in Hx. apply str_eqb_eq in Hs. subst.
+    injection H as <-. right. eauto.
   Qed.
 
-  Lemma flat_bytes_run a x src :
-    flat a = [Do (EvBytes x src)] ->
-    forall st k, exists k', run a st k = Normal (setv x (getb src st) st) k'.
+  (* once the value is a formatted one nothing rebinds it *)
+  Lemma fmt_sym_frozen s : forall cur r, can_rebind cur = false -> fmt_sym s cur = Some r -> r = cur.
   Proof.
-    induction a as [|a IHa b IHb|e|e h| |a IHa b IHb|c a IHa|c a IHa]; intros Hf st k;
-      try (cbn in Hf; discriminate).
-    - cbn [flat] in Hf. apply app_eq_single in Hf as [[Ha Hb]|[Ha Hb]]; cbn [IOShape.run].
-      + destruct (IHa Ha st k) as [k1 E1]. rewrite E1. apply (flat_nil_run b Hb).
-      + destruct (flat_nil_run a Ha st k) as [k1 E1]. rewrite E1. apply IHb. exact Hb.
-    - destruct e; cbn in Hf; try discriminate. injection Hf as -> ->. eexists. reflexivity.
+    induction s as [|a IHa b IHb|e|e h| |a IHa b IHb|c a IHa|c a IHa]; intros cur r Hc H;
+      cbn [fmt_sym] in H; try discriminate.
+    - congruence.
+    - destruct (fmt_sym a cur) as [c1|] eqn:Ea; [|discriminate].
+      pose proof (IHa _ _ Hc Ea). subst c1. eauto.
+    - destruct e; try discriminate; [congruence|]. rewrite Hc in H. discriminate.
+    - destruct e; try discriminate. rewrite Hc in H. discriminate.
+    - destruct (fmt_sym a cur) as [ra|] eqn:Ea; [|discriminate].
+      destruct (fmt_sym b cur) as [rb|] eqn:Eb; [|discriminate].
+      pose proof (IHa _ _ Hc Ea). pose proof (IHb _ _ Hc Eb). subst ra rb.
+      apply join_cases in H as [[H _]|(x & s & H1 & H2 & _)]; [congruence|]. congruence.
   Qed.
 
-  Definition handle (h : onerr) (e : error) : option error :=
-    match h with EvReturnErr => Some e | EvReturnWrapped => Some (EWrap e) | EvSwallowErr => None end.
+  (* the outcome of the formatting phase: it goes on with the binding true of the new state
+     (buffers and logs untouched), or it returns the (wrapped) error of go/format.Source on
+     the contents of the source buffer - and that only when the value it was to produce does
+     not exist *)
+  Definition fmt_post (st : state) (bd : binding) (r : res) : Prop :=
+    match r with
+    | Normal st' _ => bufs st' = bufs st /\ wlog st' = wlog st /\ fslog st' = fslog st /\ holds bd st'
+    | Returned (Some e) st' =>
+      bufs st' = bufs st /\ wlog st' = wlog st /\ fslog st' = fslog st /\
+      exists x src kd, bd = Some (x, src, kd) /\ sval kd (getb src st) = None /\
+                       unwrap e = EFormat (getb src st)
+    | Returned None _ => False
+    end.
 
-  Lemma flat_format_run a x src h :
-    flat a = [Try (EvFormat x src) h] ->
-    forall st k,
-      match fmt (getb src st) with
-      | Some o => exists k', run a st k = Normal (setv x o st) k'
-      | None => run a st k = Returned (handle h (EFormat (getb src st))) st
-      end.
+  Lemma getb_bufs src st st' : bufs st' = bufs st -> getb src st' = getb src st.
+  Proof. unfold getb. intros ->. reflexivity. Qed.
+
+  Lemma holds_bufs c st st' : bufs st' = bufs st -> vars st' = vars st -> holds c st -> holds c st'.
   Proof.
-    induction a as [|a IHa b IHb|e|e h'| |a IHa b IHb|c a IHa|c a IHa]; intros Hf st k;
-      try (cbn in Hf; discriminate).
-    - cbn [flat] in Hf. apply app_eq_single in Hf as [[Ha Hb]|[Ha Hb]]; cbn [IOShape.run].
-      + specialize (IHa Ha st k). destruct (fmt (getb src st)) as [o|] eqn:Ef.
-        * destruct IHa as [k1 E1]. rewrite E1. apply (flat_nil_run b Hb).
-        * rewrite IHa. reflexivity.
-      + destruct (flat_nil_run a Ha st k) as [k1 E1]. rewrite E1. apply IHb. exact Hb.
-    - destruct e; cbn in Hf; try discriminate.
-    - cbn in Hf. injection Hf as -> ->. cbn [IOShape.run IOShape.run_ev].
-      destruct (fmt (getb src st)) as [o|]; [eexists; reflexivity|].
-      cbn [is_panic]. destruct h; reflexivity.
+    destruct c as [[[x src] kd]|]; cbn; [|auto]. unfold getb, getv. intros -> ->. auto.
   Qed.
 
-  Lemma fmt_step_run fs x src nf :
-    fmt_step fs = Some (x, src, nf) ->
-    forall st k,
-      match (if nf && noformat then Some (getb src st) else fmt (getb src st)) with
-      | Some out => exists k', run fs st k = Normal (setv x out st) k'
-      | None => exists e, run fs st k = Returned (Some e) st /\ unwrap e = EFormat (getb src st)
-      end.
+  Lemma fmt_post_sel st x s ra rb :
+    fmt_post st (Some (x, s, ORaw)) ra -> fmt_post st (Some (x, s, OFmt)) rb ->
+    fmt_post st (Some (x, s, OSel)) (if noformat then ra else rb).
   Proof.
-    intros Hs st k. destruct fs as [|a b|e|e h| |a b|c a|c a]; cbn [fmt_step] in Hs; try discriminate.
-    - destruct e; try discriminate. destruct (returns_err h) eqn:Hr; [|discriminate].
-      injection Hs as -> -> <-. cbn [andb]. cbn [IOShape.run IOShape.run_ev].
-      destruct (fmt (getb src st)) as [o|]; [eexists; reflexivity|].
-      cbn [is_panic]. destruct h; try discriminate; eexists; split; reflexivity.
-    - repeat match type of Hs with
-             | context [match ?t with _ => _ end] => destruct t eqn:?; try discriminate
-             end.
-      match goal with H : flat a = _ |- _ => rename H into Fa end.
-      match goal with H : flat b = _ |- _ => rename H into Fb end.
-      match goal with H : (_ && _) = true |- _ => rename H into Hc end.
-      apply andb_true_iff in Hc as [Hc Hr]. apply andb_true_iff in Hc as [Hx Hsrc].
-      apply str_eqb_eq in Hx. apply str_eqb_eq in Hsrc. subst.
-      injection Hs as -> -> <-. cbn [andb IOShape.run].
-      pose proof (flat_bytes_run a _ _ Fa st k) as Ha.
-      pose proof (flat_format_run b _ _ _ Fb st k) as Hb.
-      destruct noformat.
-      + exact Ha.
-      + destruct (fmt (getb src st)) as [o|]; [exact Hb|].
-        rewrite Hb. destruct h; try discriminate; eexists; split; reflexivity.
+    unfold fmt_post, holds, sval. intros Ha Hb. destruct noformat.
+    - destruct ra as [st1 k1|[e|] st1]; auto.
+      destruct Ha as (_ & _ & _ & x1 & s1 & k1 & Hr & Hv & _). injection Hr as <- <- <-. discriminate.
+    - destruct rb as [st1 k1|[e|] st1]; auto.
+      destruct Hb as (Hb1 & Hw1 & Hf1 & x1 & s1 & k1 & Hr & Hv & He). injection Hr as <- <- <-.
+      repeat split; auto. exists x, s, OSel. auto.
+  Qed.
+
+  Lemma fmt_sym_run s : forall cur bd, fmt_sym s cur = Some bd ->
+    forall st k, holds cur st -> fmt_post st bd (run s st k).
+  Proof.
+    induction s as [|a IHa b IHb|e|e h| |a IHa b IHb|c a IHa|c a IHa]; intros cur bd H st k Hh;
+      cbn [fmt_sym] in H; try discriminate.
+    - injection H as <-. cbn. auto.
+    - destruct (fmt_sym a cur) as [c1|] eqn:Ea; [|discriminate].
+      specialize (IHa _ _ Ea st k Hh). cbn [IOShape.run].
+      destruct (run a st k) as [st1 k1|[e|] st1]; cbn [fmt_post] in IHa.
+      + destruct IHa as (Hb1 & Hw1 & Hf1 & Hh1). specialize (IHb _ _ H st1 k1 Hh1).
+        destruct (run b st1 k1) as [st2 k2|[e|] st2]; cbn [fmt_post] in IHb |- *.
+        * destruct IHb as (Hb2 & Hw2 & Hf2 & Hh2). repeat split; congruence.
+        * destruct IHb as (Hb2 & Hw2 & Hf2 & x & src & kd & Hr & Hv & He).
+          repeat split; try congruence. exists x, src, kd.
+          rewrite (getb_bufs src _ _ Hb1) in Hv, He. auto.
+        * exact IHb.
+      + destruct IHa as (Hb1 & Hw1 & Hf1 & x & src & kd & Hr & Hv & He).
+        repeat split; auto. exists x, src, kd. repeat split; auto.
+        subst c1. apply (fmt_sym_frozen b _ _) in H; [exact H|].
+        destruct kd; cbn in Hv |- *; [discriminate|reflexivity|reflexivity].
+      + exact IHa.
+    - destruct e; try discriminate.
+      + injection H as <-. cbn. auto.
+      + destruct (can_rebind cur); [|discriminate]. injection H as <-.
+        cbn [IOShape.run IOShape.run_ev fmt_post]. repeat split.
+        cbn [holds sval]. rewrite getv_setv'. reflexivity.
+    - destruct e; try discriminate.
+      destruct (can_rebind cur && returns_err h) eqn:Hc; [|discriminate]. injection H as <-.
+      apply andb_true_iff in Hc as [_ Hr].
+      cbn [IOShape.run IOShape.run_ev].
+      destruct (fmt (getb src st)) as [o|] eqn:Ef.
+      + cbn [fmt_post]. repeat split. cbn [holds sval].
+        rewrite getv_setv'. replace (getb src (setv dst o st)) with (getb src st) by reflexivity.
+        exact Ef.
+      + cbn [is_panic]. destruct h; try discriminate; cbn [fmt_post]; repeat split;
+          exists dst, src, OFmt; repeat split; auto.
+    - destruct (fmt_sym a cur) as [ra|] eqn:Ea; [|discriminate].
+      destruct (fmt_sym b cur) as [rb|] eqn:Eb; [|discriminate].
+      specialize (IHa _ _ Ea st k Hh). specialize (IHb _ _ Eb st k Hh).
+      cbn [IOShape.run].
+      apply join_cases in H as [[-> ->]|(x & s0 & -> & -> & ->)].
+      + destruct noformat; assumption.
+      + apply fmt_post_sel; assumption.
+  Qed.
+
+  Lemma span_fmt_app r a b : span_fmt r = (a, b) -> r = a ++ b.
+  Proof.
+    revert a b. induction r as [|s r IH]; intros a b H; cbn in H.
+    - injection H as <- <-. reflexivity.
+    - destruct (is_fmt_stmt s).
+      + destruct (span_fmt r) as [a1 b1]. injection H as <- <-. cbn. f_equal. auto.
+      + injection H as <- <-. reflexivity.
   Qed.
 
   Lemma io_parts_shape body pre x src nf :
     io_parts body = Some (pre, x, src, nf) ->
-    exists fs what,
-      body = pre ++ [fs; Try (EvWriteCaller KWrite what x) EvReturnErr; EvReturnNil] /\
-      fmt_step fs = Some (x, src, nf).
+    exists fp what kd,
+      body = pre ++ fp ++ [Try (EvWriteCaller KWrite what x) EvReturnErr; EvReturnNil] /\
+      fmt_sym (block fp) None = Some (Some (x, src, kd)) /\
+      (forall raw, sval kd raw = if nf && noformat then Some raw else fmt raw).
   Proof.
     unfold io_parts. intros H.
-    repeat match type of H with
-           | context [match ?t with _ => _ end] => destruct t eqn:?; try discriminate
-           end.
-    match goal with E : rev body = _ |- _ => rename E into Er end.
-    match goal with E : fmt_step _ = _ |- _ => rename E into Ef end.
-    match goal with E : str_eqb _ _ = true |- _ => apply str_eqb_eq in E; subst end.
-    injection H as <- <- <- <-. do 2 eexists. split; [|exact Ef].
-    rewrite <- (rev_involutive body), Er. cbn [rev]. rewrite <- !app_assoc. reflexivity.
+    destruct (rev body) as [|s1 [|s2 rest]] eqn:Er; try discriminate; try (destruct s1; discriminate).
+    destruct s1; try discriminate. destruct s2 as [| |e|e h| | | |]; try discriminate.
+    destruct e as [| | | | | |kw what x0| | |]; try discriminate.
+    destruct kw; try discriminate. destruct h; try discriminate.
+    destruct (span_fmt rest) as [rfp rpre] eqn:Es.
+    destruct (fmt_sym (block (rev rfp)) None) as [[[[x' src'] kd]|]|] eqn:Ef; try discriminate.
+    destruct (str_eqb x0 x') eqn:Ex; [|discriminate]. apply str_eqb_eq in Ex. subst x'.
+    apply span_fmt_app in Es. subst rest.
+    assert (Hb : body = rev rpre ++ rev rfp ++ [Try (EvWriteCaller KWrite what x0) EvReturnErr; EvReturnNil]).
+    { rewrite <- (rev_involutive body), Er. cbn [rev]. rewrite rev_app_distr, <- !app_assoc. reflexivity. }
+    destruct kd; try discriminate; injection H as <- <- <- <-;
+      exists (rev rfp), what; eexists; (split; [exact Hb|]); (split; [exact Ef|]);
+      intros raw; cbn [sval andb]; reflexivity.
   Qed.
 
   Lemma getv_setv x v st : getv x (setv x v st) = v.
-  Proof. unfold getv, setv. cbn [vars]. rewrite alookup_aset_same. reflexivity. Qed.
+  Proof. apply getv_setv'. Qed.
 
   (* THE GENERIC THEOREM.  For a body accepted by the checker, whatever the events do:
-     - if anything before the write fails (a render errors or panics, a buffer write fails):
-       the caller's writer has received NOTHING and the call returns that first failure;
+     - if anything before the formatting phase fails (a render errors or panics, a buffer write
+       fails): the caller's writer has received NOTHING and the call returns that first failure;
      - else if the formatter rejects the text: nothing written, the (wrapped) format error
        is returned;
      - else the writer has received exactly ONE Write call carrying the whole output (the
@@ -211,27 +280,31 @@ Section Sound.
     | Normal st _ =>
       let raw := getb src st in
       match (if nf && noformat then Some raw else fmt raw) with
-      | None => exists e, call body = (st, Some e) /\ unwrap e = EFormat raw /\ wlog st = [] /\ fslog st = []
+      | None => exists e st', call body = (st', Some e) /\ unwrap e = EFormat raw /\
+                              wlog st' = [] /\ fslog st' = []
       | Some out =>
         exists st', call body = (st', if wfail 1 then Some (EWriteErr 1) else None) /\
                     wlog st' = [(out, wfail 1)] /\ fslog st' = []
       end
     end.
   Proof.
-    intros Hp Hl. destruct (io_parts_shape _ _ _ _ _ Hp) as (fs & what & -> & Hfs).
+    intros Hp Hl. destruct (io_parts_shape _ _ _ _ _ Hp) as (fp & what & kd & -> & Hfs & Hsv).
     pose proof (local_list_quiet pre Hl st0 0) as Hq.
     unfold IOShape.call. rewrite run_block_app.
     destruct (run (block pre) st0 0) as [st k|[e|] st] eqn:E1; cbn in Hq.
-    - destruct Hq as [Hw Hf]. cbv zeta.
-      pose proof (fmt_step_run fs x src nf Hfs st k) as Hstep.
-      cbn [block fold_right IOShape.run].
-      destruct (if nf && noformat then Some (getb src st) else fmt (getb src st)) as [out|].
-      + destruct Hstep as [k' ->]. cbn [IOShape.run_ev].
-        rewrite getv_setv. cbn [wlog setv]. rewrite Hw. cbn [length].
-        destruct (wfail 1) eqn:Ew; cbn [is_panic].
-        * eexists. split; [reflexivity|]. cbn [wlog logw setv fslog]. rewrite Hw, Hf. auto.
-        * eexists. split; [reflexivity|]. cbn [wlog logw setv fslog]. rewrite Hw, Hf. auto.
-      + destruct Hstep as (e & -> & He). exists e. auto.
+    - destruct Hq as [Hw Hf]. cbv zeta. rewrite run_block_app.
+      pose proof (fmt_sym_run (block fp) None _ Hfs st k I) as Hstep.
+      rewrite <- Hsv.
+      destruct (run (block fp) st k) as [st1 k1|[e|] st1]; cbn [fmt_post] in Hstep.
+      + destruct Hstep as (Hb1 & Hw1 & Hf1 & Hh). cbn [holds] in Hh.
+        rewrite (getb_bufs src _ _ Hb1) in Hh. rewrite Hh.
+        cbn [block fold_right IOShape.run IOShape.run_ev].
+        rewrite Hw1, Hw. cbn [length].
+        destruct (wfail 1) eqn:Ew; cbn [is_panic];
+          (eexists; split; [reflexivity|]); cbn [wlog logw fslog]; rewrite Hw1, Hw, Hf1, Hf; auto.
+      + destruct Hstep as (Hb1 & Hw1 & Hf1 & x1 & s1 & k1' & Hr & Hv & He).
+        injection Hr as <- <- <-. rewrite Hv. exists e, st1. repeat split; congruence.
+      + contradiction.
     - destruct Hq as [Hw Hf]. auto.
     - exact Hq.
   Qed.
@@ -245,7 +318,7 @@ Section Sound.
     destruct (run (block pre) st0 0) as [st k|[e|] st].
     - cbv zeta in Hs. destruct (if nf && noformat then _ else _).
       + destruct Hs as (st' & -> & Hw & _). cbn [fst]. rewrite Hw. cbn. lia.
-      + destruct Hs as (e & -> & _ & Hw & _). cbn [fst]. rewrite Hw. cbn. lia.
+      + destruct Hs as (e & st' & -> & _ & Hw & _). cbn [fst]. rewrite Hw. cbn. lia.
     - destruct Hs as (-> & Hw & _). cbn [fst]. rewrite Hw. cbn. lia.
     - contradiction.
   Qed.
@@ -266,7 +339,7 @@ Section Sound.
     - cbv zeta in Hs. destruct (if nf && noformat then _ else _) as [out|].
       + destruct Hs as (st' & -> & Hw & _). cbn [fst snd]. rewrite Hw.
         destruct (wfail 1); [right|]; eauto.
-      + destruct Hs as (e & -> & _ & Hw & _). cbn [fst snd]. rewrite Hw. auto.
+      + destruct Hs as (e & st' & -> & _ & Hw & _). cbn [fst snd]. rewrite Hw. auto.
     - destruct Hs as (-> & Hw & _). cbn [fst snd]. rewrite Hw. auto.
     - contradiction.
   Qed.
@@ -363,7 +436,7 @@ Proof.
     + destruct (fmt raw) as [o|].
       * destruct Hs as (st' & -> & Hw & _). unfold abs_outcome. cbn [fst snd]. rewrite Hw.
         destruct (wfail 1); reflexivity.
-      * destruct Hs as (e & -> & He & Hw & _). unfold abs_outcome. cbn [fst snd]. rewrite Hw, He. reflexivity.
+      * destruct Hs as (e & st' & -> & He & Hw & _). unfold abs_outcome. cbn [fst snd]. rewrite Hw, He. reflexivity.
   - destruct Hm as (st & E). rewrite E in Hs. destruct Hs as (-> & Hw & _).
     unfold abs_outcome. cbn [fst snd unwrap]. rewrite Hw. reflexivity.
 Qed.
@@ -414,7 +487,7 @@ Proof.
       + destruct Hs as (st' & -> & Hw & _). unfold sub_ok, sub_of. cbn [fst snd]. rewrite Hw. split; eauto.
       + destruct (fmt raw) as [o|].
         * destruct Hs as (st' & -> & Hw & _). unfold sub_ok, sub_of. cbn [fst snd]. rewrite Hw. split; eauto.
-        * destruct Hs as (e & -> & He & Hw & _). unfold sub_ok, sub_of. cbn [fst snd]. split; eauto.
+        * destruct Hs as (e & st' & -> & He & Hw & _). unfold sub_ok, sub_of. cbn [fst snd]. split; eauto.
     - destruct Hm as (st & E). rewrite E in Hs. destruct Hs as (-> & Hw & _).
       unfold sub_ok, sub_of. cbn [fst snd]. split; eauto. }
   destruct Hok as [Hok Hcase].
@@ -434,7 +507,12 @@ Qed.
 (* ------------------------------------------------------------------ the regenerated table *)
 From Jen Require Import Gen.IO.
 
+(* the body of the entry that does the work for [name]: [name]'s own, or that of the entry it
+   delegates to (an unexported helper that was handed the writer) *)
 Definition body_of (name : str) : list stmt :=
+  match resolve io_entries (length io_entries) name with Some e => e_body e | None => [] end.
+(* the body of [name] itself *)
+Definition own_body_of (name : str) : list stmt :=
   match find_entry io_entries name with Some e => e_body e | None => [] end.
 Definition pre_of (body : list stmt) : list stmt :=
   match io_parts body with Some (pre, _, _, _) => pre | None => [] end.
@@ -450,9 +528,10 @@ Definition n_group_rwf := S "(*Group).RenderWithFile".
 Definition n_stmt_render := S "(*Statement).Render".
 Definition n_group_render := S "(*Group).Render".
 
-(* the six entry points exist with the expected kinds, and every entry of the table (these
-   and any other exported function with an io.Writer parameter or an os call that may be
-   added later) passes its checker *)
+(* the six entry points exist with the expected kinds (an entry expected to be an EWriter may
+   also delegate to one), and every entry of the table (these and any other exported function
+   with a writer parameter or an os call that may be added later, and every unexported function
+   that is handed the caller's writer) passes its checker *)
 Definition expected_entries : list (str * ekind) :=
   [(n_file_render, EWriter); (n_stmt_rwf, EWriter); (n_group_rwf, EWriter);
    (n_stmt_render, EDelegate); (n_group_render, EDelegate); (n_file_save, EFileSys)].
@@ -460,15 +539,26 @@ Definition ekind_eqb (a b : ekind) : bool :=
   match a, b with EWriter, EWriter | EFileSys, EFileSys | EDelegate, EDelegate => true | _, _ => false end.
 Definition entries_present : bool :=
   forallb (fun ne => match find_entry io_entries (fst ne) with
-                     | Some e => ekind_eqb (e_kind e) (snd ne)
+                     | Some e =>
+                       ekind_eqb (e_kind e) (snd ne) ||
+                       match snd ne, resolve io_entries (length io_entries) (fst ne) with
+                       | EWriter, Some e' => ekind_eqb (e_kind e') EWriter
+                       | _, _ => false
+                       end
                      | None => false end) expected_entries.
 
 Lemma io_table_ok : table_wf io_entries = true /\ entries_present = true.
 Proof. vm_compute. split; reflexivity. Qed.
 
+(* the translator found nothing in package jen, outside the entry points, that could reach the
+   caller's writer or the file system (its whole-package confinement scan; see the header of
+   Props/C10_shape.v) *)
+Lemma io_confined_ok : io_confinement = [].
+Proof. vm_compute. reflexivity. Qed.
+
 Lemma delegates_ok :
-  delegate_target (body_of n_stmt_render) = Some n_stmt_rwf /\
-  delegate_target (body_of n_group_render) = Some n_group_rwf.
+  delegate_target (own_body_of n_stmt_render) = Some n_stmt_rwf /\
+  delegate_target (own_body_of n_group_render) = Some n_group_rwf.
 Proof. vm_compute. split; reflexivity. Qed.
 
 Lemma file_render_shape :
